@@ -166,6 +166,9 @@ func runC05(c *engine.Case) engine.Result {
 		res.Bucket = "unequal+nonempty"
 	}
 	res.Bucket += "/" + o.Name
+	if fail != "" && c.A == c.B {
+		fail = "identical inputs: " + fail
+	}
 	if construct != "" {
 		res.Bucket = "live/" + res.Bucket
 		if fail != "" {
